@@ -4,6 +4,7 @@
    every single call of a returned NextHost function with the host it returned (or nil, or a panic),
    plus read-backs of the copy-on-write tier lists and of the pick counter.  [check] replays the
    history through [Model.step] and compares every observation. *)
+From GocqlV Require C10.Model.
 From GocqlV Require Import Lib.Base C11.Model.
 
 Inductive obs := OHost (id : Z) | ONil | OPanic.
@@ -12,7 +13,14 @@ Inductive ev :=
 | EL (l : label)                 (* LOp / LSetState / LSetCtr / LPick: no output *)
 | ENext (it : nat) (o : obs)     (* generator [it] was called once and returned [o] *)
 | ELists (ls : list (list Z))    (* the tier lists (host pointers, as ids), nearest first *)
-| ECtr (v : Z).                  (* lastUsedHostIdx *)
+| ECtr (v : Z)                   (* lastUsedHostIdx *)
+| ELookup (hs : list (Z * list Z * (list Z * list Z * Z)))
+                                 (* the token-aware policy's hosts: pointer id, HostInfo.Tokens() as integers
+                                    (Murmur3 / Random partitioner), (data centre, rack, address) *)
+          (strat : option C10.Model.strategy)     (* the keyspace's placement strategy, None: no replica map *)
+          (t : Z)                                 (* partitioner.Hash(routing key) *)
+          (q : qinfo).           (* what the real Pick's lookup returned: must be what C10's model of newTokenRing,
+                                    replicaMap, replicasFor and GetHostForToken computes from the hosts' tokens *)
 
 Inductive case := Case (c : cfg) (evs : list ev).
 
@@ -33,6 +41,28 @@ Fixpoint zll_eqb (a b : list (list Z)) : bool :=
   | _, _ => false
   end.
 
+Definition lookup_info (hs : list (Z * list Z * (list Z * list Z * Z))) (h : Z) : C10.Model.hinfo :=
+  match find (fun e => fst (fst e) =? h) hs with
+  | Some (_, (dc, rack, addr)) => C10.Model.mkInfo dc rack addr
+  | None => C10.Model.mkInfo [] [] 0
+  end.
+
+Definition check_lookup (hs : list (Z * list Z * (list Z * list Z * Z))) (strat : option C10.Model.strategy) (t : Z) (q : qinfo) : bool :=
+  let ring := C10.Model.new_token_ring Z.ltb (map fst hs) in
+  let m := match strat with
+           | None => Some []
+           | Some st => match C10.Model.replica_map (lookup_info hs) st (map (fun e => fst (fst e)) hs) ring with
+                        | C10.Model.Ok m => Some m
+                        | C10.Model.Crash _ => None
+                        end
+           end in
+  match m, q with
+  | Some m, QKey ht primary _ =>
+      opt_eqb zlist_eqb (option_map snd (C10.Model.replicas_for Z.ltb m t)) (option_map (map hid) ht)
+      && opt_eqb Z.eqb (option_map fst (C10.Model.get_host_for_token Z.ltb ring t)) (option_map hid primary)
+  | _, _ => false
+  end.
+
 Fixpoint replay (c : cfg) (s : sys) (evs : list ev) : bool :=
   match evs with
   | [] => true
@@ -46,6 +76,7 @@ Fixpoint replay (c : cfg) (s : sys) (evs : list ev) : bool :=
           end
       | ELists ls => zll_eqb (map (map hid) (plists (s_pol s))) ls && replay c s evs'
       | ECtr v => (pctr (s_pol s) =? v) && replay c s evs'
+      | ELookup hs strat t q => check_lookup hs strat t q && replay c s evs'
       end
   end.
 
